@@ -91,34 +91,66 @@ def tables(mo, da, want):
 
 
 # ---------------------------------------------------------------- input generation
-def gen_pair(rng, ndim=None):
-    """A (model, data) pair of real dadi.Spectrum objects with independent masks."""
+def gen_pair(rng, ndim=None, cfg=None):
+    """A (model, data) pair of real dadi.Spectrum objects with independent masks.  cfg (all optional) fixes elements of the
+    domain: ndim, shape, kind ('counts' | 'projected' | 'mixed' | 'large'), fold ('none' | 'data' | 'both'),
+    masks (data mode, model mode), parity of the total sample size, zero (an unmasked zero datum), layout ('C' | 'F' | 'strided')."""
     import dadi
-    ndim = ndim or rng.choice([1, 1, 2, 2, 3])
+    cfg = cfg or {}
+    for attempt in range(40):
+        pair = _gen_pair_once(rng, ndim, cfg)
+        if pair is not None:
+            return pair
+    raise common.MachineryError('C11 generator: no pair in the domain for configuration %r' % (cfg,))
+
+
+def _layout(arr, layout, rng):
+    """the same values in another memory layout (Fortran order, or a strided view of a larger array)"""
+    if layout == 'F':
+        return np.asfortranarray(arr)
+    if layout == 'strided':
+        big = np.zeros(tuple(2 * s for s in arr.shape))
+        view = big[tuple(slice(None, None, 2) for _ in arr.shape)]
+        view[...] = arr
+        return view
+    return arr
+
+
+def _gen_pair_once(rng, ndim, cfg):
+    import dadi
+    ndim = cfg.get('ndim', ndim) or rng.choice([1, 1, 2, 2, 3])
     hi = {1: 18, 2: 6, 3: 3}[ndim]
-    sh = tuple(rand_shape(rng, ndim, 2, hi))
+    if 'shape' in cfg:
+        sh = tuple(cfg['shape'])
+    else:
+        sh = tuple(rand_shape(rng, ndim, 2, hi))
+        if 'parity' in cfg and (sum(x - 1 for x in sh) % 2 == 0) != (cfg['parity'] == 'even'):
+            sh = (sh[0] + 1,) + sh[1:]
     size = int(np.prod(sh))
-    kind = rng.choice(['counts', 'counts', 'projected', 'projected', 'mixed'])
+    kind = cfg.get('kind') or rng.choice(['counts', 'counts', 'projected', 'projected', 'mixed'])
     if kind == 'projected':
         # genuinely projected data: integer counts at a larger sample size, projected down by dadi
         big = tuple(s + rng.randint(1, 4) for s in sh)
         raw = np.array([float(rng.choice([0, 0, 1, 2, 3, 5, 8, 20, rng.randrange(0, 400)])) for _ in range(int(np.prod(big)))]).reshape(big)
-        data = dadi.Spectrum(raw, mask_corners=False).project([s - 1 for s in sh])
-        data = dadi.Spectrum(np.asarray(data.data), mask_corners=False)
+        dvals = np.array(np.asarray(dadi.Spectrum(raw, mask_corners=False).project([s - 1 for s in sh]).data))
     elif kind == 'counts':
-        data = dadi.Spectrum(np.array([float(rng.choice([0, 0, 1, 2, 3, rng.randrange(0, 60), rng.randrange(0, 2000)]))
-                                       for _ in range(size)]).reshape(sh), mask_corners=False)
+        dvals = np.array([float(rng.choice([0, 0, 1, 2, 3, rng.randrange(0, 60), rng.randrange(0, 2000)])) for _ in range(size)]).reshape(sh)
+    elif kind == 'large':
+        dvals = np.array([float(rng.choice([0, rng.randrange(10 ** 4, 10 ** 6), rng.randrange(0, 100)])) for _ in range(size)]).reshape(sh)
     else:
-        data = dadi.Spectrum(np.array([rng.choice([0.0, rng.uniform(0, 3), rng.uniform(0, 300), float(rng.randrange(0, 30))])
-                                       for _ in range(size)]).reshape(sh), mask_corners=False)
+        dvals = np.array([rng.choice([0.0, rng.uniform(0, 3), rng.uniform(0, 300), float(rng.randrange(0, 30))]) for _ in range(size)]).reshape(sh)
+    if cfg.get('zero') and size > 2:
+        dvals.flat[rng.randrange(1, size - 1)] = 0.0
     scale = 10 ** rng.uniform(-3, 3)
     mvals = np.array([scale * rng.choice([rng.uniform(0.01, 2), rng.uniform(0.5, 1.5), 10 ** rng.uniform(-4, 2)]) for _ in range(size)]).reshape(sh)
-    if rng.random() < 0.3:
+    if cfg.get('zero_model', rng.random() < 0.3):
         # a model that vanishes where the data vanish (contribution 0)
-        z = [k for k in range(size) if data.data.flat[k] == 0]
+        z = [k for k in range(size) if dvals.flat[k] == 0]
         for k in z[:max(1, len(z) // 2)]:
             mvals.flat[k] = 0.0
-    model = dadi.Spectrum(mvals, mask_corners=False)
+    layout = cfg.get('layout', 'C')
+    data = dadi.Spectrum(_layout(dvals.astype(int) if cfg.get('dtype') == 'int' else dvals, layout, rng), mask_corners=False)
+    model = dadi.Spectrum(_layout(mvals, layout, rng), mask_corners=False)
 
     def rmask(mode):
         mk = np.zeros(sh, dtype=bool)
@@ -128,26 +160,64 @@ def gen_pair(rng, ndim=None):
             for k in range(size):
                 if rng.random() < 0.2:
                     mk.flat[k] = True
-        if mode in ('single', 'interior'):
+        if mode in ('single', 'interior') and size > 2:
             mk.flat[rng.randrange(1, size - 1)] = True      # 'interior': an interior entry only, both corners stay unmasked
         return mk
+    modes = ['none', 'corners', 'random', 'single', 'interior']
     for _ in range(20):
-        dmask = rmask(rng.choice(['none', 'corners', 'random', 'single', 'interior']))
-        mmask = rmask(rng.choice(['none', 'corners', 'random', 'single', 'interior']))
-        model.mask = mmask
-        data.mask = dmask
-        fd = rng.random() < 0.35
-        fm = fd and rng.random() < 0.3
+        dmode, mmode = cfg.get('masks', (rng.choice(modes), rng.choice(modes)))
+        model.mask = rmask(mmode)
+        data.mask = rmask(dmode)
+        if 'fold' in cfg:
+            fd, fm = cfg['fold'] in ('data', 'both'), cfg['fold'] == 'both'
+        else:
+            fd = rng.random() < 0.35
+            fm = fd and rng.random() < 0.3
         d2 = data.fold() if fd else data
         m2 = model.fold() if fm else model
-        # make sure at least two entries carry likelihood and the model total is positive there
+        # make sure at least two entries carry likelihood, and that the data and model totals are positive there
         e = m2.fold() if (fd and not fm) else m2
-        joint = ~np.ma.getmaskarray(e) & ~np.ma.getmaskarray(d2) & (e.data > 0)
-        if joint.sum() >= 2 and d2.data[joint].sum() > 0:
+        jm = ~np.ma.getmaskarray(e) & ~np.ma.getmaskarray(d2)
+        joint = jm & (e.data > 0)
+        if joint.sum() >= 2 and d2.data[joint].sum() > 0 and d2.data[jm].sum() > 0:
+            if cfg.get('zero') and not np.any(jm & (np.asarray(d2.data) == 0)):
+                continue
             return m2, d2
-    model.mask = np.zeros(sh, dtype=bool)
-    data.mask = np.zeros(sh, dtype=bool)
-    return model, data
+    return None
+
+
+# Elements of the quantifier drawn on purpose in every tier: every (dimension, kind of data) pair; every folding mode with
+# every dimension and every kind (Latin square); nine independent mask-mode pairs; both parities of the total sample size;
+# three memory layouts; the smallest spectra; very large counts.
+_FOLDS = ['none', 'data', 'both']
+_MASKS = [('none', 'none'), ('corners', 'corners'), ('interior', 'none'), ('none', 'interior'), ('random', 'random'),
+          ('single', 'corners'), ('corners', 'random'), ('interior', 'interior'), ('random', 'none')]
+PAIR_CONFIGS = [{'name': '%dD-%s' % (nd, kind), 'ndim': nd, 'kind': kind, 'fold': _FOLDS[(i + j) % 3], 'masks': _MASKS[3 * i + j],
+                 'parity': ['even', 'odd'][(i + j) % 2], 'zero': kind != 'projected', 'layout': ['C', 'F', 'strided'][(2 * i + j) % 3]}
+                for i, nd in enumerate((1, 2, 3)) for j, kind in enumerate(('counts', 'projected', 'mixed'))] + [
+    {'name': 'smallest-1D', 'shape': (3,), 'ndim': 1, 'kind': 'counts', 'fold': 'none', 'masks': ('none', 'none')},
+    {'name': 'integer-dtype-data', 'ndim': 2, 'kind': 'counts', 'fold': 'data', 'masks': ('corners', 'none'), 'dtype': 'int', 'layout': 'F'},
+    {'name': 'smallest-2D', 'shape': (2, 3), 'ndim': 2, 'kind': 'mixed', 'fold': 'none', 'masks': ('none', 'interior')},
+    {'name': 'folded-even-1D', 'shape': (9,), 'ndim': 1, 'kind': 'counts', 'fold': 'data', 'masks': ('none', 'none'), 'zero': True},
+    {'name': 'folded-odd-2D', 'shape': (3, 4), 'ndim': 2, 'kind': 'projected', 'fold': 'data', 'masks': ('interior', 'none')},
+    {'name': 'large-counts', 'ndim': 1, 'kind': 'large', 'fold': 'none', 'masks': ('corners', 'none')},
+    {'name': 'model-zero-at-zero-data', 'ndim': 2, 'kind': 'counts', 'fold': 'none', 'masks': ('none', 'none'), 'zero': True, 'zero_model': True},
+]
+LEVELS = [None, 0.0, 0.5, 1e-2, 2.0]
+FACTORS = [1e-3, 1e3, 0.5, 7.0]
+
+
+def residual_boundary_records(nid):
+    """Residual masking exactly at the level (model <= level and data <= level), and the zero-datum rule of the Anscombe
+    residual, on a hand-made pair without masks."""
+    import dadi
+    model = dadi.Spectrum(np.array([0.5, 0.005, 2.0, 2.0, 3.0, 0.01, 1.0, 2.5]), mask_corners=False)
+    data = dadi.Spectrum(np.array([0.5, 0.0, 2.0, 2.5, 0.0, 0.01, 7.0, 2.0]), mask_corners=False)
+    recs = []
+    for lvl in (None, 0.0, 0.01, 2.0, 3.0):
+        for op in ('lin_resid', 'ans_resid'):
+            recs.append(make_record('%s-%d' % (op, next(nid)), op, model, data, lvl))
+    return recs
 
 
 def _val(x):
@@ -299,9 +369,12 @@ def records(ctx):
     rng = random.Random(ctx.seed + 11)
     recs = []
     nid = itertools.count()
-    ncase = 45 if ctx.quick else 450
-    for c in range(ncase):
-        model, data = gen_pair(rng)
+    recs.extend(residual_boundary_records(nid))
+    nrand = 30 if ctx.quick else 450
+    ndet = len(PAIR_CONFIGS)
+    for c in range(ndet + nrand):
+        cfg = PAIR_CONFIGS[c] if c < ndet else None
+        model, data = gen_pair(rng, cfg=cfg)
         # the optimal scaling sum(d)/sum(m) must be positive for the multinomial likelihood to be defined:
         # redraw pairs whose jointly unmasked data are all zero
         for attempt in range(20):
@@ -309,17 +382,17 @@ def records(ctx):
             dm = data.fold() if False else data
             if float(np.asarray(data.data)[joint].sum()) > 0:
                 break
-            model, data = gen_pair(rng)
+            model, data = gen_pair(rng, cfg=cfg)
         try:
             batch = []
             for op in OPS:
-                lvl = rng.choice([None, 0.0, 0.5, 1e-2, 2.0]) if op.endswith('resid') else None
+                lvl = (LEVELS[(c + (op == 'ans_resid')) % 5] if cfg else rng.choice(LEVELS)) if op.endswith('resid') else None
                 batch.append(make_record('%s-%d' % (op, next(nid)), op, model, data, lvl))
             recs.extend(batch)
         except ZeroJointData:
             continue        # outside the domain of the multinomial likelihood (no data on the joint entries)
         # invariance to rescaling the model
-        cfac = 10 ** rng.uniform(-3, 3)
+        cfac = FACTORS[c % 4] if cfg else 10 ** rng.uniform(-3, 3)      # both ends of the scale range on purpose
         mo, da = enc(model), enc(data)
         out = {}
         try:
